@@ -79,7 +79,16 @@ static int should_fail(size_t bytes)
   g_count++;
   if (g_fail_k > 0 && ((g_mode == 1 && g_count == g_fail_k) || (g_mode == 2 && g_count >= g_fail_k)))
   {
-    if (g_injected == 0) g_nsite = fp_backtrace(g_site, NFRAMES);
+    if (g_injected == 0)
+    {
+      g_nsite = fp_backtrace(g_site, NFRAMES);
+      if (getenv("VF_TRACE"))   // the site is otherwise lost when the case ends in a crash
+      {
+        fprintf(stderr, "INJECT");
+        for (int i = 0; i < g_nsite; i++) fprintf(stderr, " %lx", (unsigned long) ((uintptr_t) g_site[i] - g_base));
+        fprintf(stderr, "\n");
+      }
+    }
     g_injected++;
     return 1;
   }
